@@ -74,6 +74,8 @@ def to_wire(o, layout=None):
 def from_wire(w):
     if isinstance(w, list):
         return [from_wire(v) for v in w]
+    if isinstance(w, float):
+        return sc.F(w)
     if not isinstance(w, dict):
         return w
     t = w.get('__t')
@@ -87,7 +89,7 @@ def from_wire(w):
         dt = _np.dtype(w['dtype'])
         vals = w['data']
         if dt.kind == 'f':
-            vals = [float(v) for v in vals]
+            vals = [sc.F(v) for v in vals]
         a = SymArray.from_list(vals, tuple(w['shape']), dt)
         if w.get('writeable') is False:
             a._wr = False
@@ -110,7 +112,7 @@ def from_wire(w):
     if t == 'df':
         return minipd.DataFrame({_hashable(c): v for c, v in w['cols']})
     if t == 'scalar':
-        return w['v']
+        return sc.F(w['v']) if isinstance(w['v'], float) else w['v']
     if t == 'labels':
         return symxr._Labels(w['v'])
     if t in ('func', 'repr'):
